@@ -5,6 +5,7 @@ import (
 	"go/token"
 	"go/types"
 	"sort"
+	"strings"
 
 	"golang.org/x/tools/go/ssa"
 )
@@ -298,14 +299,14 @@ func ruleEOFMidHeader(c *Ctx, r *Rep, tier string) {
 // only if a result read for the latest instruction can never look stale – or
 // the Reader drops it and waits for a goroutine that is parked:
 //
-//   #gen-sent     the generation in the value sent on control is Reader.gen as it
-//                 is when the sending function returns (loaded after the last
-//                 store, or the very value stored);
-//   #gen-stamped  in the goroutine, the decompressor sent on working has been
-//                 stamped with the gen field of the same instruction value whose
-//                 next field was the offset given to nextBlockAt: both are read
-//                 from the same variable with no receive into it (and no store to
-//                 the field) in between.
+//	#gen-sent     the generation in the value sent on control is Reader.gen as it
+//	              is when the sending function returns (loaded after the last
+//	              store, or the very value stored);
+//	#gen-stamped  in the goroutine, the decompressor sent on working has been
+//	              stamped with the gen field of the same instruction value whose
+//	              next field was the offset given to nextBlockAt: both are read
+//	              from the same variable with no receive into it (and no store to
+//	              the field) in between.
 func ruleGenBind(c *Ctx, r *Rep, tier string) {
 	rule := "GEN-BIND"
 	fControl := c.Field("bgzf", "Reader", "control")
@@ -600,13 +601,14 @@ func ruleSyncRedirect(c *Ctx, r *Rep, tier string) {
 //
 // Decided for every function of bgzf/cache, outside the cache types, that has a
 // parameter of a cache interface type:
-//   – on no path are there two dynamic calls on that parameter, except on paths
-//     that are only taken by foreign implementations: the not-ok edge of an
-//     assertion of the parameter to an interface that every cache type of the
-//     package implements;
-//   – the methods such an assertion dispatches to are single critical sections
-//     (one acquisition of the receiver's mutex, not in a loop, nothing of the
-//     receiver touched after an explicit release).
+//
+//	– on no path are there two dynamic calls on that parameter, except on paths
+//	  that are only taken by foreign implementations: the not-ok edge of an
+//	  assertion of the parameter to an interface that every cache type of the
+//	  package implements;
+//	– the methods such an assertion dispatches to are single critical sections
+//	  (one acquisition of the receiver's mutex, not in a loop, nothing of the
+//	  receiver touched after an explicit release).
 func ruleAtomicCompose(c *Ctx, r *Rep, tier string) {
 	rule := "ATOMIC-COMPOSE"
 	allImpls := discoverCaches(c, hts_cacheCfg)
@@ -770,4 +772,664 @@ func isMutexField(fa *ssa.FieldAddr) bool {
 		return true
 	}
 	return false
+}
+
+// ---- FREE-COUNT ----------------------------------------------------------------
+//
+// "Free … leave[s] the stated … free slots": what the caches' free(n) does inside
+// its critical section, as arithmetic over the receiver's capacity and the length
+// of its table (polynomials over name-free atoms, so the spelling does not
+// matter):
+//
+//	#drop-count  drop is handed n − (cap − len(table)): the slots that are missing,
+//	             not n (that evicts blocks although there is room) and not
+//	             cap − len(table);
+//	#answer      the result is cap − len(table) ≥ n with the table's length read
+//	             after the eviction, not the count taken before it.
+func ruleFreeCount(c *Ctx, r *Rep, tier string) {
+	rule := "FREE-COUNT"
+	n := 0
+	for _, fn := range c.FuncsIn("bgzf/cache") {
+		if fn.Name() != "free" || fn.Signature.Recv() == nil || len(fn.Params) != 2 || fn.Blocks == nil {
+			continue
+		}
+		recv, want := fn.Params[0], fn.Params[1]
+		var capF, tableF *types.Var
+		if st, ok := recv.Type().(*types.Pointer).Elem().Underlying().(*types.Struct); ok {
+			for i := 0; i < st.NumFields(); i++ {
+				f := st.Field(i)
+				if _, isMap := f.Type().Underlying().(*types.Map); isMap && tableF == nil {
+					tableF = f
+				}
+				if b, ok := f.Type().Underlying().(*types.Basic); ok && b.Kind() == types.Int && capF == nil {
+					capF = f
+				}
+			}
+		}
+		if capF == nil || tableF == nil {
+			continue
+		}
+		n++
+		// classify atoms: a load of recv.cap, len(load of recv.table), the parameter
+		atom := func(v ssa.Value) string {
+			v = stripConv(v)
+			if v == ssa.Value(want) {
+				return "n"
+			}
+			if f, base := loadedField(v); f == capF && origin(base) == ssa.Value(recv) {
+				return "cap"
+			}
+			if a, ok := isLenCall(v); ok {
+				if f, base := loadedField(a); f == tableF && origin(base) == ssa.Value(recv) {
+					return "len"
+				}
+			}
+			return ""
+		}
+		var lin func(v ssa.Value, sign int64, out map[string]int64) bool
+		lin = func(v ssa.Value, sign int64, out map[string]int64) bool {
+			v = stripConv(v)
+			if a := atom(v); a != "" {
+				out[a] += sign
+				return true
+			}
+			if k, ok := constInt(v); ok {
+				out[""] += sign * k
+				return true
+			}
+			if bo, ok := v.(*ssa.BinOp); ok {
+				switch bo.Op {
+				case token.ADD:
+					return lin(bo.X, sign, out) && lin(bo.Y, sign, out)
+				case token.SUB:
+					return lin(bo.X, sign, out) && lin(bo.Y, -sign, out)
+				}
+			}
+			return false
+		}
+		is := func(m map[string]int64, nn, cp, ln int64) bool {
+			return m["n"] == nn && m["cap"] == cp && m["len"] == ln && m[""] == 0
+		}
+		var drop *ssa.Call
+		allInstrs(fn, func(ins ssa.Instruction) {
+			if call, ok := ins.(*ssa.Call); ok {
+				if g := staticCallee(&call.Call); g != nil && g.Name() == "drop" && len(call.Call.Args) == 2 {
+					drop = call
+				}
+			}
+		})
+		r.Instance(rule, 2)
+		k1 := c.FnName(fn) + "#drop-count"
+		k2 := c.FnName(fn) + "#answer"
+		if drop == nil {
+			r.Fail(rule, k1, c.Pos(fn.Pos()), "no call of drop: undecided")
+			r.Fail(rule, k2, c.Pos(fn.Pos()), "no call of drop: undecided")
+			continue
+		}
+		m := map[string]int64{}
+		why := ""
+		if !lin(drop.Call.Args[1], 1, m) || !is(m, 1, -1, 1) {
+			why = fmt.Sprintf("drop is handed %s, not n − (cap − len(table)): with n itself blocks are evicted although there is room for some of the n already; with the free slots the count is unrelated to what is asked for", symKey(drop.Call.Args[1]))
+		}
+		r.Check(why == "", rule, k1, c.Pos(drop.Pos()), "drop(n − (cap − len(table)))", why)
+
+		why = ""
+		okRet := 0
+		for _, b := range fn.Blocks {
+			ret, ok := b.Instrs[len(b.Instrs)-1].(*ssa.Return)
+			if !ok || len(ret.Results) != 1 {
+				continue
+			}
+			v := retValue(ret, 0)
+			// a phi of answers: every edge is judged
+			var judge func(v ssa.Value, at *ssa.BasicBlock) string
+			// roomAt: block at is only reached with n ≤ cap − len(table)
+			roomAt := func(at *ssa.BasicBlock) bool {
+				for _, eb := range fn.Blocks {
+					ifi := ifOf(eb)
+					if ifi == nil {
+						continue
+					}
+					bo, ok := ifi.Cond.(*ssa.BinOp)
+					if !ok {
+						continue
+					}
+					d := map[string]int64{}
+					if !lin(bo.X, 1, d) || !lin(bo.Y, -1, d) {
+						continue
+					}
+					// d = X − Y; room means n − cap + len ≤ 0
+					pos := is(d, 1, -1, 1)  // X − Y = n − (cap − len)
+					neg := is(d, -1, 1, -1) // X − Y = (cap − len) − n
+					k := -1
+					switch {
+					case pos && (bo.Op == token.LEQ || bo.Op == token.LSS):
+						k = 0
+					case pos && (bo.Op == token.GTR):
+						k = 1
+					case neg && (bo.Op == token.GEQ || bo.Op == token.GTR):
+						k = 0
+					case neg && (bo.Op == token.LSS):
+						k = 1
+					}
+					if k >= 0 && (dominatedByEdge(fn, eb, k, at) || eb.Succs[k] == at && len(at.Preds) == 1) {
+						return true
+					}
+				}
+				return false
+			}
+			judge = func(v ssa.Value, at *ssa.BasicBlock) string {
+				switch x := v.(type) {
+				case *ssa.Phi:
+					for i, e := range x.Edges {
+						if w := judge(e, x.Block().Preds[i]); w != "" {
+							return w
+						}
+					}
+					return ""
+				case *ssa.UnOp:
+					// results spilled to a local because of the deferred unlock: every value stored is an answer
+					if al, ok := x.X.(*ssa.Alloc); ok && x.Op == token.MUL {
+						for _, ref := range *al.Referrers() {
+							if st, ok := ref.(*ssa.Store); ok && st.Addr == al {
+								if w := judge(st.Val, st.Block()); w != "" {
+									return w
+								}
+							}
+						}
+						return ""
+					}
+				case *ssa.Const:
+					// a constant answer on an early path: true only where there is room
+					if x.Value == nil || x.Value.String() != "true" {
+						return "a constant false answer"
+					}
+					if !roomAt(at) {
+						return "Free answers true on a path where n ≤ cap − len(table) has not been established"
+					}
+					return ""
+				case *ssa.BinOp:
+					d := map[string]int64{}
+					var okL bool
+					switch x.Op {
+					case token.GEQ:
+						okL = lin(x.X, 1, d) && lin(x.Y, -1, d)
+					case token.LEQ:
+						okL = lin(x.Y, 1, d) && lin(x.X, -1, d)
+					default:
+						return fmt.Sprintf("the answer is %s, not cap − len(table) ≥ n", symKey(v))
+					}
+					if !okL || !is(d, -1, 1, -1) {
+						return fmt.Sprintf("the answer compares %s, not cap − len(table) with n", symKey(v))
+					}
+					// the table's length is read after the eviction
+					stale := ""
+					var walk func(y ssa.Value)
+					walk = func(y ssa.Value) {
+						y = stripConv(y)
+						if bo, ok := y.(*ssa.BinOp); ok {
+							walk(bo.X)
+							walk(bo.Y)
+							return
+						}
+						if atom(y) == "len" {
+							if ins, ok := y.(ssa.Instruction); ok {
+								if _, reach := pathTo(locOf(ins), func(z ssa.Instruction) bool { return z == ssa.Instruction(drop) }, nil, nil); reach {
+									stale = "the length of the table in the answer is read before the eviction (" + c.Pos(ins.Pos()) + "): Free says false although it has just made the room"
+								}
+							}
+						}
+					}
+					walk(x.X)
+					walk(x.Y)
+					okRet++
+					return stale
+				}
+				return fmt.Sprintf("the answer %s is not understood", symKey(v))
+			}
+			if w := judge(v, b); w != "" {
+				why = w
+			}
+		}
+		if why == "" && okRet == 0 {
+			why = "no return computes cap − len(table) ≥ n"
+		}
+		r.Check(why == "", rule, k2, c.Pos(fn.Pos()), "returns cap − len(table) ≥ n, read after the eviction", why)
+	}
+	if n < 3 {
+		r.Instance(rule, 1)
+		r.Fail(rule, "bgzf/cache#free-methods", "bgzf/cache/cache.go", fmt.Sprintf("only %d free methods found (3 confirmed by reading): the rule's anchor moved", n))
+	}
+}
+
+// ---- CHUNK-PROGRESS ------------------------------------------------------------
+//
+// In Blocked mode a Read of the bgzf.Reader may return no byte and still have
+// moved: a zero-length read is how the ChunkReader steps from a drained block
+// into the next one when the chunk ends at offset 0 of a later block. Whether
+// the current chunk is given up after a read is therefore a matter of where
+// the reader is (LastChunk before and after, the chunk's End), never of how
+// many bytes came back: a chunk abandoned because n == 0 loses every block
+// between the drained one and its End (tenth-round seed C13-k).
+//
+// Decided as a must-pass-through over the dependency closure: every path from
+// the underlying Read to the store that drops the chunk (chunks = chunks[1:])
+// passes a branch whose condition depends on a LastChunk taken after the Read.
+// (The byte count may appear among the conditions; it may not be the only
+// thing that leads to the drop.)
+func ruleChunkProgress(c *Ctx, r *Rep, tier string) {
+	rule := "CHUNK-PROGRESS"
+	fn := c.Func("bgzf/index", "(*ChunkReader).Read")
+	chunksF := c.Field("bgzf/index", "ChunkReader", "chunks")
+	bgRead := c.Func("bgzf", "(*Reader).Read")
+	lastChunk := c.Func("bgzf", "(*Reader).LastChunk")
+	r.Instance(rule, 1)
+	key := "bgzf/index.(*ChunkReader).Read#progress-by-position"
+	var read *ssa.Call
+	allInstrs(fn, func(ins ssa.Instruction) {
+		if call, ok := ins.(*ssa.Call); ok && staticCallee(&call.Call) == bgRead {
+			read = call
+		}
+	})
+	if read == nil {
+		r.Fail(rule, key, c.Pos(fn.Pos()), "no call of (*bgzf.Reader).Read: undecided")
+		return
+	}
+	var count ssa.Value
+	for _, ref := range *read.Referrers() {
+		if ex, ok := ref.(*ssa.Extract); ok && ex.Index == 0 {
+			count = ex
+		}
+	}
+	var dependsOn func(v, target ssa.Value, seen map[ssa.Value]bool) bool
+	dependsOn = func(v, target ssa.Value, seen map[ssa.Value]bool) bool {
+		if v == target {
+			return true
+		}
+		if v == nil || seen[v] {
+			return false
+		}
+		seen[v] = true
+		ins, ok := v.(ssa.Instruction)
+		if !ok {
+			return false
+		}
+		if al, ok := v.(*ssa.Alloc); ok {
+			// a local held in memory (a struct): what was stored into it, whole or by field
+			for _, ref := range *al.Referrers() {
+				switch x := ref.(type) {
+				case *ssa.Store:
+					if x.Addr == al && dependsOn(x.Val, target, seen) {
+						return true
+					}
+				case *ssa.FieldAddr:
+					for _, r2 := range *x.Referrers() {
+						if st, ok := r2.(*ssa.Store); ok && st.Addr == x && dependsOn(st.Val, target, seen) {
+							return true
+						}
+					}
+				}
+			}
+		}
+		for _, op := range ins.Operands(nil) {
+			if *op != nil && dependsOn(*op, target, seen) {
+				return true
+			}
+		}
+		return false
+	}
+	// the drops after the read
+	why := ""
+	drops := 0
+	var after []*ssa.Call
+	allInstrs(fn, func(x ssa.Instruction) {
+		if call, ok := x.(*ssa.Call); ok && staticCallee(&call.Call) == lastChunk && instrDominates(read, call) {
+			after = append(after, call)
+		}
+	})
+	positionalIf := func(x ssa.Instruction) bool {
+		ifi, ok := x.(*ssa.If)
+		if !ok {
+			return false
+		}
+		for _, call := range after {
+			if dependsOn(ifi.Cond, call, map[ssa.Value]bool{}) {
+				return true
+			}
+		}
+		return false
+	}
+	allInstrs(fn, func(ins ssa.Instruction) {
+		st, ok := ins.(*ssa.Store)
+		if !ok {
+			return
+		}
+		fa, ok := st.Addr.(*ssa.FieldAddr)
+		if !ok || fieldVarOfAddr(fa) != chunksF || !instrDominates(read, st) {
+			return
+		}
+		drops++
+		if _, ok := mustPass(locOf(read), is(st), positionalIf, nil); !ok {
+			by := ""
+			if count != nil {
+				for _, b := range fn.Blocks {
+					if ifi := ifOf(b); ifi != nil && instrDominates(read, ifi) && dependsOn(ifi.Cond, count, map[ssa.Value]bool{}) && blockReaches(b, st.Block()) && !positionalIf(ifi) {
+						by = " (the branch at " + c.Pos(ifi.Pos()) + " looks at the number of bytes returned)"
+					}
+				}
+			}
+			why = fmt.Sprintf("the chunk can be given up (%s) after the read without any test of where the reader is now%s: a read that steps over the end of a drained block returns no byte and has moved – the chunk is dropped with the blocks between there and its End unread", c.Pos(st.Pos()), by)
+		}
+	})
+	if drops == 0 {
+		why = "no store that drops the current chunk after the read: undecided"
+	}
+	r.Check(why == "", rule, key, c.Pos(read.Pos()), "giving up the chunk after a read is decided from positions (LastChunk after the read against LastChunk before it, or the chunk's End)", why)
+}
+
+func blockReaches(from, to *ssa.BasicBlock) bool {
+	seen := map[*ssa.BasicBlock]bool{from: true}
+	work := []*ssa.BasicBlock{from}
+	for len(work) > 0 {
+		b := work[len(work)-1]
+		work = work[:len(work)-1]
+		if b == to {
+			return true
+		}
+		for _, s := range b.Succs {
+			if !seen[s] {
+				seen[s] = true
+				work = append(work, s)
+			}
+		}
+	}
+	return false
+}
+
+// ---- SHARED-STATE --------------------------------------------------------------
+//
+// What a Writer emits, and what a Reader returns, is a function of what that
+// instance was given: the properties quantify over the calls made on one writer
+// or reader, "whatever" else the process does. That holds structurally as long as
+// the package keeps no state that one instance writes and another reads.
+// Decided for every package-level variable that is referenced outside package
+// initialisation:
+//
+//	– read-only: only loaded, and nothing is stored through what was loaded (no
+//	  element or map update, no address handed out): error values, tables;
+//	– an object pool (sync.Pool): the objects it carries from one instance to
+//	  the next are reset on the way – every value taken out has a Reset call
+//	  that dominates its other uses, or every value put in was Reset before;
+//	– anything else is state shared between instances: reported.
+//
+// (Tenth-round seed C08-l recycled the compressors' buffers between Writers
+// through a pool without resetting them: after a Writer whose destination failed,
+// the next Writer's first member began with the lost block.)
+func ruleSharedState(pkgs []string) func(c *Ctx, r *Rep, tier string) {
+	return func(c *Ctx, r *Rep, tier string) {
+		rule := "SHARED-STATE"
+		for _, pk := range pkgs {
+			sp := c.SSA[pk]
+			if sp == nil {
+				unresolved("package %q", pk)
+			}
+			fns := c.FuncsIn(pk)
+			var names []string
+			for n, m := range sp.Members {
+				if _, ok := m.(*ssa.Global); ok && !strings.Contains(n, "$") {
+					names = append(names, n)
+				}
+			}
+			sort.Strings(names)
+			for _, gn := range names {
+				g := sp.Members[gn].(*ssa.Global)
+				type use struct {
+					fn  *ssa.Function
+					ins ssa.Instruction
+				}
+				var uses []use
+				for _, fn := range fns {
+					if fn.Name() == "init" && fn.Parent() == nil {
+						continue
+					}
+					fn := fn
+					allInstrs(fn, func(ins ssa.Instruction) {
+						for _, op := range ins.Operands(nil) {
+							if *op == ssa.Value(g) {
+								uses = append(uses, use{fn, ins})
+							}
+						}
+					})
+				}
+				if len(uses) == 0 {
+					continue
+				}
+				r.Instance(rule, 1)
+				key := pk + "." + gn + "#shared-state"
+				elem := g.Type().(*types.Pointer).Elem()
+				isPool := false
+				if nt, ok := elem.(*types.Named); ok && nt.Obj().Pkg() != nil && nt.Obj().Pkg().Path() == "sync" && nt.Obj().Name() == "Pool" {
+					isPool = true
+				}
+				why := ""
+				var gets, puts []*ssa.Call
+				for _, u := range uses {
+					switch x := u.ins.(type) {
+					case *ssa.UnOp:
+						if x.Op != token.MUL {
+							why = "its address is taken at " + c.Pos(x.Pos())
+							break
+						}
+						// nothing is stored through the loaded value
+						for _, ref := range *x.Referrers() {
+							switch y := ref.(type) {
+							case *ssa.MapUpdate:
+								if y.Map == ssa.Value(x) {
+									why = "the table is written at " + c.Pos(y.Pos()) + " by code that any instance runs"
+								}
+							case *ssa.IndexAddr:
+								for _, r2 := range *y.Referrers() {
+									if st, ok := r2.(*ssa.Store); ok && st.Addr == ssa.Value(y) {
+										why = "an element is stored at " + c.Pos(st.Pos()) + " by code that any instance runs"
+									}
+								}
+							}
+						}
+					case *ssa.Call:
+						callee := calleeFullName(&x.Call)
+						switch {
+						case isPool && callee == "(*sync.Pool).Get":
+							gets = append(gets, x)
+						case isPool && callee == "(*sync.Pool).Put":
+							puts = append(puts, x)
+						default:
+							why = "its address is handed to " + callee + " at " + c.Pos(x.Pos())
+						}
+					case *ssa.Store:
+						why = "it is assigned at " + c.Pos(x.Pos()) + " outside package initialisation"
+					case *ssa.FieldAddr, *ssa.IndexAddr:
+						why = "a part of it is addressed at " + c.Pos(u.ins.Pos()) + " (it can be written there)"
+					default:
+						why = fmt.Sprintf("used by %T at %s: not understood", u.ins, c.Pos(u.ins.Pos()))
+					}
+				}
+				if why != "" {
+					why = "package-level variable shared by every instance: " + why + " – what one Writer or Reader does can change what another emits or returns"
+				}
+				if why == "" && isPool {
+					// reset on the way out, or on the way in
+					resetOn := func(v ssa.Value, before ssa.Instruction) *ssa.Call {
+						var found *ssa.Call
+						if v.Referrers() == nil {
+							return nil
+						}
+						for _, ref := range *v.Referrers() {
+							if cl, ok := ref.(*ssa.Call); ok && len(cl.Call.Args) > 0 && cl.Call.Args[0] == v {
+								if f := staticCallee(&cl.Call); f != nil && f.Name() == "Reset" {
+									if before == nil || instrDominates(cl, before) {
+										found = cl
+									}
+								}
+							}
+						}
+						return found
+					}
+					getsClean := len(gets) > 0
+					for _, gcall := range gets {
+						// the object: the asserted view of the result
+						obj := ssa.Value(gcall)
+						for _, ref := range *gcall.Referrers() {
+							if ta, ok := ref.(*ssa.TypeAssert); ok {
+								obj = ta
+								if ta.CommaOk {
+									for _, r2 := range *ta.Referrers() {
+										if ex, ok := r2.(*ssa.Extract); ok && ex.Index == 0 {
+											obj = ex
+										}
+									}
+								}
+							}
+						}
+						rs := resetOn(obj, nil)
+						if rs == nil {
+							getsClean = false
+							continue
+						}
+						for _, ref := range *obj.Referrers() {
+							if ref != ssa.Instruction(rs) && !instrDominates(rs, ref) {
+								getsClean = false
+							}
+						}
+					}
+					putsClean := len(puts) > 0
+					for _, pcall := range puts {
+						arg := pcall.Call.Args[1]
+						if mi, ok := arg.(*ssa.MakeInterface); ok {
+							arg = mi.X
+						}
+						if resetOn(arg, pcall) == nil {
+							// the same place read twice: x.buf.Reset(); pool.Put(x.buf)
+							same := false
+							allInstrs(pcall.Parent(), func(y ssa.Instruction) {
+								cl, ok := y.(*ssa.Call)
+								if !ok || len(cl.Call.Args) == 0 || !instrDominates(cl, pcall) {
+									return
+								}
+								if f := staticCallee(&cl.Call); f == nil || f.Name() != "Reset" {
+									return
+								}
+								if _, isLoad := arg.(*ssa.UnOp); isLoad && symKey(cl.Call.Args[0]) == symKey(arg) {
+									same = true
+								}
+							})
+							if !same {
+								putsClean = false
+							}
+						}
+					}
+					if !getsClean && !putsClean {
+						why = fmt.Sprintf("objects of the pool go from one instance to the next as they were left (%d Get, %d Put; no Reset that dominates the uses of what is taken out, none before what is put in): whatever an instance left in them – the block a failed destination did not take – is the next instance's", len(gets), len(puts))
+					}
+				}
+				r.Check(why == "", rule, key, c.Pos(g.Pos()), "read-only, or a pool whose objects are reset between instances", why)
+			}
+		}
+	}
+}
+
+// ---- KEEP-OTHER-BASE -----------------------------------------------------------
+//
+// nextBlock's synchronous fall-back reads the wanted member with nextBlockAt,
+// which first steps over every block the cache holds. That is right only
+// because the cache cannot hold the wanted one: cacheSwap has just missed, and
+// whatever nextBlock itself has put into the cache since – the read-ahead results
+// it passed over – has another base. A result for the wanted base that is kept
+// (a stale one, say, treated as a mismatch) sends the fall-back past it, and past
+// every cached block behind it: Read returns a later block's bytes, silently
+// (tenth-round seed C03-l).
+//
+// Decided by path enumeration from the receive on working (nil facts about the
+// error are carried along, so "err != nil && stale … if err == nil" is seen to
+// be infeasible): every path that reaches the call of keep has passed the
+// not-equal edge of the comparison of the result's base with the wanted one.
+func ruleKeepOtherBase(c *Ctx, r *Rep, tier string) {
+	rule := "KEEP-OTHER-BASE"
+	fn := c.Func("bgzf", "(*Reader).nextBlock")
+	keep := c.Func("bgzf", "(*Reader).keep")
+	fCur := c.Field("bgzf", "Reader", "current")
+	fWork := c.Field("bgzf", "Reader", "working")
+	key := "bgzf.(*Reader).nextBlock#kept-other-base"
+	r.Instance(rule, 1)
+	var recv ssa.Instruction
+	var keeps []ssa.Instruction
+	allInstrs(fn, func(ins ssa.Instruction) {
+		if u, ok := ins.(*ssa.UnOp); ok && u.Op == token.ARROW {
+			if f, _ := loadedField(u.X); f == fWork {
+				recv = ins
+			}
+		}
+		if call, ok := ins.(*ssa.Call); ok && staticCallee(&call.Call) == keep {
+			keeps = append(keeps, ins)
+		}
+	})
+	if recv == nil {
+		r.Fail(rule, key, c.Pos(fn.Pos()), "no receive on working found: undecided")
+		return
+	}
+	if len(keeps) == 0 {
+		r.Pass(rule, key, c.Pos(recv.Pos()), "nextBlock puts nothing into the cache after the receive")
+		return
+	}
+	isKeep := func(ins ssa.Instruction) bool {
+		for _, k := range keeps {
+			if k == ins {
+				return true
+			}
+		}
+		return false
+	}
+	w := NewWalker(c)
+	w.Inline = 0
+	w.Stop = func(ins ssa.Instruction) bool { return ins == recv || isKeep(ins) }
+	w.Edge = func(from *ssa.BasicBlock, succ int) (string, bool) {
+		i := ifOf(from)
+		if i == nil || from.Succs[0] == from.Succs[1] {
+			return "", false
+		}
+		bo, ok := i.Cond.(*ssa.BinOp)
+		if !ok || (bo.Op != token.EQL && bo.Op != token.NEQ) {
+			return "", false
+		}
+		if !isInvokeOnField(insOf(bo.X), fCur, "Base") && !isInvokeOnField(insOf(bo.Y), fCur, "Base") {
+			return "", false
+		}
+		ne := 0 // the successor on which the bases differ
+		if bo.Op == token.EQL {
+			ne = 1
+		}
+		if succ == ne {
+			return "mismatch", true
+		}
+		return "", false
+	}
+	var bad ssa.Instruction
+	n := 0
+	for _, e := range w.Walk(fn, locOf(recv)) {
+		if e.At != nil && isKeep(e.At) {
+			n++
+			if e.Counts["mismatch"] == 0 {
+				bad = e.At
+			}
+		}
+	}
+	switch {
+	case w.overflow:
+		r.Fail(rule, key, c.Pos(fn.Pos()), "path budget exhausted: undecided")
+	case bad != nil:
+		r.Fail(rule, key, c.Pos(bad.Pos()), "a read-ahead result can be put into the cache without its base having been found different from the wanted one: the synchronous read that follows steps over cached blocks, so with the wanted block cached it decodes a later member and Read returns that member's bytes for this position")
+	case n == 0:
+		r.Fail(rule, key, c.Pos(recv.Pos()), "no path from the receive reaches keep: undecided")
+	default:
+		r.Pass(rule, key, c.Pos(recv.Pos()), fmt.Sprintf("all %d paths from the receive to keep pass the not-equal edge of the base comparison", n))
+	}
 }
